@@ -119,3 +119,17 @@ Print Assumptions C13_rej_content.
    emptied directories removed (the order the model's apply_patches has) *)
 Example C13_rejects_after_save_in_source : seq_order_ok = true /\ par_order_ok = true.
 Proof. split; reflexivity. Qed.
+
+(* several sections of the failing patch for one file: their rejects share one reject file, which reads back as that
+   many file patches, in the order of the patch, each with exactly its failed hunks *)
+Theorem C13_merged_reject_reads_back :
+  forall (ss : list status) (l rejs : list rej_file) (n : bytes),
+    rejs = fold_left (fun a r => add_rej (fst r) (snd r) a) l [] ->
+    Forall2 (fun s r => fst r = rej_name (st_target s) /\ write_rej_bytes s = ROk (snd r)) ss l ->
+    Forall (fun s => wf_fp0 (st_fp s) /\ r_failed (st_report s) = true /\
+                     failed_hunks (pf_hunks (st_fp s)) (r_hunks (st_report s)) <> [] /\ fp_names_ok (st_fp s)) ss ->
+    let mine := rev (filter (fun s => bytes_eqb (rej_name (st_target s)) n) ss) in
+    exists fps', parse_patch (odef (rej_lookup n rejs)) 0 false = Ok (Parsed {| pp_header := []; pp_fps := fps' |}) /\
+                 Forall2 same_fp0 (List.map (fun s => strip_fp 0 (rej_fp (st_fp s, st_report s))) mine) fps'.
+Proof. exact rendered_rej_reads_back. Qed.
+Print Assumptions C13_merged_reject_reads_back.
